@@ -19,10 +19,11 @@ Definition pf_value (x : pyfloat) : xq :=
 Definition pf_neg (x : pyfloat) : bool := match x with PNaN => false | PInf neg => neg | PFin neg _ _ => neg end.
 
 (* format parameters as the code spells them: layout, bias (127 / 1023), mantissa bits, NaN mantissa returned by
-   *_to_ieee754_parts ((1<<23)-1, resp. (1<<51)-1), and whether a zero keeps its sign (dp: yes; sp: no = finding #16) *)
+   *_to_ieee754_parts ((1<<23)-1, resp. (1<<51)-1), and whether a zero keeps its sign (dp: yes; sp: yes since 8d56487, no before = finding #16) *)
 Record fphfmt := mkFphFmt { H_lay : layout; H_bias : Z; H_mw : Z; H_nanm : Z; H_zero_sign : bool }.
 Definition fph_sp_with (zs : bool) : fphfmt := mkFphFmt layout_sp 127 23 8388607 zs.
-Definition fph_sp : fphfmt := fph_sp_with false.
+Definition fph_sp : fphfmt := fph_sp_with true.                      (* /repo today (since 8d56487) *)
+Definition fph_sp_before_8d56487 : fphfmt := fph_sp_with false.      (* HISTORY: finding #16, the sign of -0.0 was lost *)
 Definition fph_dp : fphfmt := mkFphFmt layout_dp 1023 52 2251799813685247 true.
 
 (* fp_to_parts(v), v finite non-zero: (s, e, m) with 1 <= m < 2 and |v| = m * 2^e.
